@@ -124,7 +124,8 @@ class Report:
         if self.errors:
             for e in self.errors:
                 print('ANALYSIS-ERROR property=%s %s' % (self.prop_id, e))
-            return 2
+            if not unlisted:
+                return 2
 
         if not quiet:
             by_rule = {}
